@@ -18,23 +18,9 @@ VEC = {"vp_realloc_ptrs.0": 11}   # VP_VEC_CAP + 1
 VER_REAL = ["dbformat.c", "util/comparator.c", "util/buffer.c", "util/slice.c", "util/options.c"]
 INC = ["version_set.c", "util/vector.c"]
 
-# comparator call sites of version_set.c / dbformat.c (goto-instrument labels; the restriction is itself asserted by CBMC)
-_UC = ["after_file.1", "before_file.1", "find_smallest_boundary_file.2", "ldb_compaction_is_base_level_for_key.1",
-       "ldb_compaction_is_base_level_for_key.2", "ldb_ikc_compare.1", "ldb_version_get_overlapping_inputs.1",
-       "ldb_version_get_overlapping_inputs.2", "ldb_version_get_overlapping_inputs.3", "ldb_version_get_overlapping_inputs.4",
-       "ldb_version_for_each_overlapping.1", "ldb_version_for_each_overlapping.2", "ldb_version_for_each_overlapping.4",
-       "save_value.1"]
-_IC = ["by_smallest_key.1", "find_largest_key.1", "find_smallest_boundary_file.1", "find_smallest_boundary_file.3",
-       "ldb_compaction_should_stop_before.1", "ldb_find_file.1", "ldb_versions_get_range.1", "ldb_versions_get_range.2",
-       "ldb_versions_pick_compaction.1", "ldb_versions_approximate_offset.1", "ldb_versions_approximate_offset.2"]
-
-
-def _site(x, target):
-    fn, n = x.rsplit(".", 1)
-    return "%s.function_pointer_call.%s/%s" % (fn, n, target)
-
-
-CMP_FP = [_site(x, "slice_compare") for x in _UC] + [_site(x, "ldb_ikc_compare") for x in _IC]
+# comparator calls of the #included version_set.c go through vp_compare() of harness/vset/ver.h (one indirect call left);
+# the restriction is itself asserted by CBMC
+CMP_FP = ["vp_compare.function_pointer_call.1/ldb_ikc_compare,slice_compare", "ldb_ikc_compare.function_pointer_call.1/slice_compare"]
 OVL_FP = CMP_FP
 GOI_FP = []
 
@@ -130,12 +116,17 @@ def boundary_obls(prefix):
     # (mode, compaction level, files per level 0..6, tier)
     cfg = [(0, 1, (0, 1), "quick"), (0, 1, (0, 2), "quick"), (0, 1, (0, 3), "quick"), (0, 6, (0, 0, 0, 0, 0, 0, 3), "quick"),
            (0, 1, (0, 4), "thorough"),
-           (1, 1, (0, 2, 1, 1), "quick"), (1, 1, (0, 2, 2, 0), "quick"), (1, 1, (0, 3, 1, 0), "quick"), (1, 0, (2, 1, 1), "quick"),
-           (1, 5, (0, 0, 0, 0, 0, 2, 2), "quick"), (1, 4, (0, 0, 0, 0, 2, 1, 1), "quick"),
+           # 3 files: quick
+           (1, 1, (0, 2, 1), "quick"), (1, 5, (0, 0, 0, 0, 0, 2, 1), "quick"), (1, 0, (2, 1), "quick"), (1, 4, (0, 0, 0, 0, 1, 1, 1), "quick"),
+           (2, 1, (0, 2, 1), "quick"), (2, 4, (0, 0, 0, 0, 1, 1, 1), "quick"),
+           (3, 1, (0, 2, 1), "quick"), (3, 0, (2, 1), "quick"),
+           # 4+ files: thorough (measured 130-260 s CPU each)
+           (1, 1, (0, 2, 1, 1), "thorough"), (1, 1, (0, 2, 2, 0), "thorough"), (1, 1, (0, 3, 1, 0), "thorough"), (1, 0, (2, 1, 1), "thorough"),
+           (1, 5, (0, 0, 0, 0, 0, 2, 2), "thorough"), (1, 4, (0, 0, 0, 0, 2, 1, 1), "thorough"),
            (1, 1, (0, 3, 2, 1), "thorough"), (1, 1, (0, 2, 3, 2), "thorough"), (1, 0, (3, 2, 1), "thorough"),
-           (2, 1, (0, 2, 1, 1), "quick"), (2, 1, (0, 3, 1, 0), "quick"), (2, 0, (2, 1, 1), "quick"), (2, 5, (0, 0, 0, 0, 0, 2, 2), "quick"),
-           (2, 1, (0, 3, 2, 1), "thorough"),
-           (3, 1, (0, 2, 1, 1), "quick"), (3, 0, (2, 1, 1), "quick"), (3, 5, (0, 0, 0, 0, 0, 2, 2), "quick"),
+           (2, 1, (0, 2, 1, 1), "thorough"), (2, 1, (0, 3, 1, 0), "thorough"), (2, 0, (2, 1, 1), "thorough"),
+           (2, 5, (0, 0, 0, 0, 0, 2, 2), "thorough"), (2, 1, (0, 3, 2, 1), "thorough"),
+           (3, 1, (0, 2, 1, 1), "thorough"), (3, 0, (2, 1, 1), "thorough"), (3, 5, (0, 0, 0, 0, 0, 2, 2), "thorough"),
            (3, 1, (0, 3, 2, 1), "thorough")]
     # scenario obligations: user keys of the bounds concrete, sequences/types/sizes symbolic
     #   S1: level 1 = [1..2] [3..4] [4..5] (key 4 straddles), level 2 = [1..3]: picking the first file expands inputs[0] over the
